@@ -559,14 +559,25 @@ func c16Patches(p *Prog, r *Report) {
 			ninc++
 		}
 	})
-	// worker sends exactly once
-	var worker *ssa.Function
-	if len(gos) > 0 {
-		worker = funcValue(gos[0].Call.Value)
+	// every spawned function sends exactly one result (usually one worker; textually separate copies of
+	// it — the worker written out at each spawn — are each checked)
+	workers := map[*ssa.Function]bool{}
+	var wlist []*ssa.Function
+	for _, g := range gos {
+		w := funcValue(g.Call.Value)
+		if w == nil {
+			r.Undecided("D4-fanout", fa.key+":worker", p.Pos(g.Pos()), "cannot resolve the worker function")
+			continue
+		}
+		if !workers[w] {
+			workers[w] = true
+			wlist = append(wlist, w)
+		}
 	}
-	if worker == nil {
+	if len(gos) == 0 {
 		r.Undecided("D4-fanout", fa.key+":worker", p.Pos(fn.Pos()), "cannot resolve the worker function")
-	} else {
+	}
+	for i, worker := range wlist {
 		var sends []ssa.Instruction
 		forEachInstr(worker, func(_ *ssa.BasicBlock, _ int, in ssa.Instruction) {
 			if _, ok := in.(*ssa.Send); ok {
@@ -578,10 +589,11 @@ func c16Patches(p *Prog, r *Report) {
 			w := findPath(entryPoint(worker), isReturn, instrIs(sends[0]), nil)
 			okS = w == nil
 		}
-		r.Check(okS, "D4-fanout", fnKey(worker)+":one-send", p.Pos(worker.Pos()), "the worker sends exactly one result", "a worker does not send exactly one result on every path: the collector's counter and the channel get out of step (deadlock or lost patches)")
-		for _, g := range gos {
-			r.Check(funcValue(g.Call.Value) == worker, "D4-fanout", fa.key+":same-worker@"+p.Pos(g.Pos()), p.Pos(g.Pos()), "all spawns run the same worker", "a spawn runs a different function")
+		site := fnKey(fn) + ":worker:one-send"
+		if i > 0 {
+			site = fmt.Sprintf("%s#%d", site, i)
 		}
+		r.Check(okS, "D4-fanout", site, p.Pos(worker.Pos()), "the worker sends exactly one result", "a worker does not send exactly one result on every path: the collector's counter and the channel get out of step (deadlock or lost patches)")
 	}
 	// output: every return of a non-nil patch list passes SortFunc then CompactFunc with the same comparator
 	var sortC, compC *ssa.Call
